@@ -2,6 +2,7 @@
 From GX.Model Require Import Base Murmur Cuckoo.
 From GX.Model Require Import Redis RedisCMS RedisCuckoo.
 From GX.Proofs Require Import ListLemmas CuckooProofs CuckooInv RedisCuckooInv.
+From GX.Proofs Require Import NonVacuity.
 From Coq Require Import ZArith.
 Open Scope N_scope.
 
@@ -121,6 +122,9 @@ Theorem C13_refuted_empty_fingerprint : exists f,
   ck_insert murmur64 (ck_new 4 1 25 3) [255; 254; 24] false true [] = InsOk f /\
   q_len f = 1 /\ Forall (fun b => k_len b = 0) (q_buckets f).
 Proof. eexists. split; [vm_compute; reflexivity|]. split; [reflexivity|]. repeat constructor. Qed.
+
+Example C13_redis_premises_hold : exists s, RI k_a k_m 4 2 s /\ tot k_a 4 s = 0%nat.
+Proof. exact RI_inhabited. Qed.
 
 Print Assumptions C13_insert_length.
 Print Assumptions C13_remove_iff_lookup.
